@@ -48,6 +48,24 @@ class Result:
                     contract_file=self.contract.source_file)
 
 
+def local_alias(c, src):
+    """{name the contract uses: name the code uses now} when the function differs from the committed baseline only by a
+    consistent renaming of locals (same alpha-normalised hash, different names)"""
+    import json
+    import os
+    try:
+        base = json.load(open(os.path.join(os.path.dirname(os.path.dirname(os.path.abspath(__file__))), 'baseline_counts.json')))
+    except Exception:
+        return {}
+    key = '%s:%s' % (c.relpath, c.qualname)
+    for prop, fns in base.items():
+        b = fns.get(key)
+        if b and b.get('alpha') == src.get('alpha') and b.get('locals') and b['locals'] != src.get('locals') \
+                and len(b['locals']) == len(src['locals']):
+            return {old: new for old, new in zip(b['locals'], src['locals']) if old != new}
+    return {}
+
+
 def collect(c, registry=None, timeout_ms=10000):
     """symbolically execute the real function against contract c"""
     registry = registry if registry is not None else REGISTRY
@@ -58,6 +76,16 @@ def collect(c, registry=None, timeout_ms=10000):
         fn = extract.find(c.relpath, c.qualname)
         res.src = dict(file=c.relpath, qualname=c.qualname, line=fn.lineno,
                        end_line=getattr(fn, 'end_lineno', None), hash=extract.body_hash(c.relpath, fn))
+        alias = {}
+        try:
+            ah, names = extract.alpha_form(fn)
+            res.src['alpha'], res.src['locals'] = ah, names
+            alias = local_alias(c, res.src)
+            if alias:
+                res.assumptions.add('locals renamed since the committed baseline (the function is otherwise identical): the contract follows '
+                                    'the renaming %r' % (alias,))
+        except Exception:
+            alias = {}
         module = importlib.import_module(extract.module_name(c.relpath))
         loops = extract.loops_of(fn)
         ordinals = {id(l): i for i, l in enumerate(loops)}
@@ -84,6 +112,7 @@ def collect(c, registry=None, timeout_ms=10000):
             I.func_lineno = fn.lineno
             I.relpath, I.qualname = c.relpath, c.qualname
             I.bounded_used = False
+            I.local_alias = alias
             run_path(I, c, fn, module, res)
             res.assumptions |= I.assumptions
             res.bounded = res.bounded or I.bounded_used
